@@ -478,6 +478,9 @@ def main():
                 jobs.append(('job_chunks', (P, taps, Wtot)))
             jobs.append(('job_cache_isolation', (P, taps)))
             jobs.append(('job_window_and_rfft', (P, taps, 2)))
+    # one call producing more than a thousand spectra (a block-wise / slab-wise implementation must not lose its remainder)
+    for (P_, taps_, W_) in ((2, 1, 1032), (2, 3, 400)) + (((4, 2, 777), (2, 8, 201)) if ck.thorough else ()):
+        jobs.append(('job_definition', (P_, taps_, W_, False)))
     jobs.append(('job_window_history', ()))
     for taps in ((1, 2, 3, 4, 7, 8) if not ck.thorough else range(1, 17)):
         for P in ((2, 3, 6, 7, 10, 14, 49, 64, 100) if not ck.thorough else (2, 3, 5, 6, 7, 10, 12, 14, 17, 23, 24, 49, 64, 100, 1000, 1024)):
